@@ -4,8 +4,9 @@
    rejected: `promised syms c P w` = w is over syms and satisfies P, resp. not P when c = false). *)
 From Coq Require Import List Arith Bool.
 From AV Require Import Base.Util Spec.Lang Spec.FA Spec.Minimal Spec.Preds Model.Decide Model.Product Model.Construct
-                       Model.KMP Model.AhoCorasick
-                       Proofs.Preds Proofs.Border Proofs.Construct Proofs.IsMinimal Proofs.CtorMinimal Proofs.KMP Proofs.ACLang.
+                       Model.KMP Model.AhoCorasick Model.FiniteLang
+                       Proofs.Preds Proofs.Border Proofs.Construct Proofs.IsMinimal Proofs.CtorMinimal Proofs.KMP Proofs.ACLang
+                       Proofs.FLLang Proofs.FLMin.
 Import ListNotations.
 
 (* ---- from_prefix: contains / complement, partial / complete ---- *)
@@ -172,6 +173,40 @@ Example C15_from_substrings_foreign_symbol :
   (exists m, ac_dfa [0] [[1;1];[0;0]] true false = Ok m /\ dfa_acc m [0] = false /\ dfa_acc m [0;0] = true /\
              dfa_acc m [0;0;0] = true /\ anysubb [[1;1];[0;0]] [0] = false).
 Proof. vm_compute. split; [reflexivity|]. eexists. repeat split. Qed.
+
+(* ---- from_finite_language: the mirror model of the incremental construction of Mihov and Schulz (Model/FiniteLang.v:
+        the four tables `transitions`, `back_map`, `final_states`, `signatures_dict` updated as the code updates them,
+        `add_to_trie`, `compress` from the longest prefix down to the common prefix with the next word of
+        `sorted(language)`, the redirection of the parents' edges to the registered state with the same signature, the
+        final `compress(prev_word, "")`, the renaming of the surviving prefixes to numbers, `validate()`, and
+        `_to_complete` for as_partial=False).  The language is a LIST of words in any order (the Python set); for every
+        duplicate-free list of words over the alphabet and both values of as_partial the model never raises, its result
+        is a valid DFA over the alphabet, partial / complete as requested, and accepts exactly the listed words; the
+        empty language gives `empty_language`. ---- *)
+Theorem C15_from_finite_language_lang : forall syms lang as_partial,
+  NoDup syms -> NoDup lang -> (forall w, In w lang -> word_over syms w) ->
+  exists m, fl_dfa syms lang as_partial = Ok m /\ valid_dfa m = true /\ d_syms m = syms /\
+            L_dfa m =L member_of lang /\
+            (lang = [] -> m = empty_m syms) /\
+            (lang <> [] -> d_partial m = as_partial /\ (as_partial = false -> complete m)).
+Proof.
+  intros syms lang ap Hs Hl Ho. destruct (fl_dfa_correct syms lang ap Hs Hl Ho) as [m (E & Hv & Hsy & Hacc & He & Hp)].
+  exists m. split; [exact E|]. split; [exact Hv|]. split; [exact Hsy|]. split; [exact Hacc|]. split; assumption.
+Qed.
+Print Assumptions C15_from_finite_language_lang.
+
+(* the language { 01, 001, 1, 11, "" } over {0,1}: the states are the prefixes "", 0, 00, 001, 1 (001 also stands for 01 and
+   11, which were merged into it); complete form with the trap state 5; a word with a symbol outside the alphabet is
+   refused by validate() with InvalidSymbolError *)
+Example C15_example_finite_language :
+  fl_dfa [0;1] [[0;1];[0;0;1];[1];[1;1];[]] true =
+    Ok (mkdfa [0;1;2;3;4] [0;1] [(0,[(0,1);(1,4)]); (1,[(0,2);(1,3)]); (2,[(1,3)]); (3,[]); (4,[(1,3)])] 0 [0;3;4] true) /\
+  fl_state_names [[0;1];[0;0;1];[1];[1;1];[]] = Ok [[]; [0]; [0;0]; [0;0;1]; [1]] /\
+  (exists m, fl_dfa [0;1] [[0;1];[0;0;1];[1];[1;1];[]] false = Ok m /\ size m = 6 /\ d_partial m = false /\
+             dfa_acc m [1;1] = true /\ dfa_acc m [0;0] = false /\ dfa_acc m [0;0;1;1] = false) /\
+  fl_dfa [0] [[1];[0]] true = Err (Invalid 2) /\
+  fl_dfa [0;1] [] false = Ok (empty_m [0;1]).
+Proof. vm_compute. split; [reflexivity|]. split; [reflexivity|]. split; [eexists; repeat split|]. split; reflexivity. Qed.
 
 (* ---- of_length: counted symbols (all symbols when symbols_to_count is None) in [lo, hi] ---- *)
 Theorem C15_of_length_lang : forall syms lo hi cnt,
@@ -391,6 +426,31 @@ Proof.
   intros s n m Hm. apply passes_intro; [eapply nth_from_end_valid; eassumption|eapply nth_from_end_is_minimal; eassumption].
 Qed.
 Print Assumptions C15_constructors_minimal.
+
+(* from_finite_language: the result of the mirror model of the Mihov-Schulz construction is minimal of its kind, for every
+   duplicate-free list of words over the alphabet and both forms (`passes` = valid, the executable test is_minimal says so,
+   and - through C15_is_minimal_sound, i.e. the Myhill-Nerode lower bound of C05 - no DFA of the same kind for the same
+   language over the same alphabet is smaller).  Invariant of the algorithm (Proofs/FLInv.v, FLAdd.v): after each
+   step the states off the path of the last word are exactly the registered ones, no two of them have the same signature,
+   they are pairwise distinguishable and all states are reachable; after the final compress(prev_word, "") the path is
+   the root alone, and the root differs from every other state by a longest word of the language (Proofs/FLMin.v).
+   Side condition of the complete form: a non-empty alphabet (over the empty alphabet `_to_complete` adds a trap state
+   that nothing can reach; the partial form and the empty language need no condition). *)
+Theorem C15_from_finite_language_minimal : forall syms lang as_partial,
+  NoDup syms -> NoDup lang -> (forall w, In w lang -> word_over syms w) ->
+  (as_partial = false -> lang <> [] -> syms <> []) ->
+  exists m, fl_dfa syms lang as_partial = Ok m /\ passes m.
+Proof.
+  intros syms lang ap Hs Hl Ho Hside. destruct (fl_dfa_minimal syms lang ap Hs Hl Ho Hside) as [m (E & Hv & Hm)].
+  exists m. split; [exact E|]. split; [exact Hv|]. split; [exact Hm|]. exact (C15_is_minimal_sound m Hv Hm).
+Qed.
+Print Assumptions C15_from_finite_language_minimal.
+
+(* the side condition is needed: over the empty alphabet the complete form of { "" } has an unreachable trap *)
+Example C15_from_finite_language_empty_alphabet :
+  (exists m, fl_dfa [] [[]] false = Ok m /\ size m = 2 /\ is_minimal m = false) /\
+  (exists m, fl_dfa [] [[]] true = Ok m /\ size m = 1 /\ is_minimal m = true).
+Proof. vm_compute. split; eexists; repeat split. Qed.
 
 (* the same by computation on all small patterns (kept as a cross-check of the models) *)
 Example C15_constructors_minimal_bounded :
